@@ -1,3 +1,41 @@
-From SK Require Import model.C08_Model proof.C08_Proof.
-Theorem C08_stub : canon_generic = canon_generic. Proof. exact stub. Qed.
-Print Assumptions C08_stub.
+From Coq Require Import List NArith ZArith Permutation.
+From SK Require Import lib.LGraph model.C08_Model proof.C08_Spec proof.C08_Faithful proof.C08_Nauty.
+Import ListNotations.
+
+(** 1. Faithfulness: the canonical graph is the input relabelled by a map that is injective on its nodes;
+       [relabel] keeps every node/edge attribute record, so all attributes are preserved.
+       wl / morgan: for ANY ranking returned by the colour / label oracle. *)
+Theorem C08_faithful_generic : forall g : graph, NoDup (node_ids g) ->
+  exists f, inj_on f (node_ids g) /\ Permutation (gnodes (canon_generic g)) (gnodes (relabel f g))
+            /\ gedges (canon_generic g) = gedges (relabel f g).
+Proof. exact faithful_generic. Qed.
+Print Assumptions C08_faithful_generic.
+
+Theorem C08_faithful_wl_morgan : forall (ranks : list (N * Z)) (g : graph), NoDup (node_ids g) ->
+  exists f, inj_on f (node_ids g) /\ Permutation (gnodes (canon_rank ranks g)) (gnodes (relabel f g))
+            /\ gedges (canon_rank ranks g) = gedges (relabel f g).
+Proof. exact faithful_rank. Qed.
+Print Assumptions C08_faithful_wl_morgan.
+
+Theorem C08_faithful_nauty : forall g : graph, NoDup (node_ids g) ->
+  exists f, inj_on f (node_ids g) /\ Permutation (gnodes (canon_nauty g)) (gnodes (relabel f g))
+            /\ gedges (canon_nauty g) = gedges (relabel f g).
+Proof. exact faithful_nauty. Qed.
+Print Assumptions C08_faithful_nauty.
+
+(** 2. The canonical node ids are exactly 1..N (nauty: after the repair of the duplicated prefix; this includes
+       termination of the search within its fuel and "every leaf is a permutation of the node set"). *)
+Theorem C08_onto_1N_generic : forall g : graph, NoDup (node_ids g) ->
+  Permutation (node_ids (canon_generic g)) (map N.of_nat (seq 1 (length (gnodes g)))).
+Proof. exact onto_generic. Qed.
+Print Assumptions C08_onto_1N_generic.
+
+Theorem C08_onto_1N_wl_morgan : forall (ranks : list (N * Z)) (g : graph), NoDup (node_ids g) ->
+  Permutation (node_ids (canon_rank ranks g)) (map N.of_nat (seq 1 (length (gnodes g)))).
+Proof. exact onto_rank. Qed.
+Print Assumptions C08_onto_1N_wl_morgan.
+
+Theorem C08_onto_1N_nauty : forall g : graph, NoDup (node_ids g) ->
+  Permutation (node_ids (canon_nauty g)) (map N.of_nat (seq 1 (length (gnodes g)))).
+Proof. exact onto_nauty. Qed.
+Print Assumptions C08_onto_1N_nauty.
